@@ -3,6 +3,7 @@ import SlipVerif.Model.LambdaCode
 import SlipVerif.Gen.Builtins
 import SlipVerif.Gen.LambdaCall
 import SlipVerif.Gen.BuiltinKeys
+import SlipVerif.Gen.LambdaSites
 /- C04 — obligations over the regenerated tables (Gen/Builtins.lean, Gen/LambdaCall.lean, rewritten
    by /verif/extract from the repository sources on every run). -/
 namespace SlipVerif.Theorems.GenC04
@@ -109,10 +110,41 @@ theorem defLambda_grammar :
     LambdaCall.defLambdaListLen = ⟨"len(ta)", .ne, "2"⟩ ∧ LambdaCall.defLambdaDefaultStored = true := by
   decide
 
-/-- the marker comparisons fold case everywhere except in the key section of the second pass -/
+/-- **marker_fold_facts** — every marker comparison of `Lambda.Call` (both passes, every mode that
+    looks at markers) folds case: `&OPTIONAL`, `&Rest`, `&Key`, `&AUX` written by the user open their
+    section like the lower-case spelling. The tables `pass1`/`pass2` the machine and the refinement
+    theorems consume are written with the lower-case markers; this fact is what makes them the
+    tables for every spelling. -/
 theorem marker_fold_facts :
-    LambdaCall.markerFold = [(1, 0, true), (1, 1, true), (2, 0, true), (2, 1, true), (2, 2, true), (2, 3, false)] := by
+    LambdaCall.markerFold.map (fun e => (e.1, e.2.1)) = [(1, 0), (1, 1), (2, 0), (2, 1), (2, 2), (2, 3)] ∧
+    LambdaCall.markerFold.all (fun e => e.2.2) = true := by
   decide
+
+/-! ### every site that builds or reads a documented lambda list (Gen/LambdaSites.lean) -/
+
+/-- readers whose marker comparison does not take part in binding arguments: `function-keywords`
+    (reports the keys of a method) and the bag path compiler (decides whether a path script is
+    handed one argument or several) -/
+def notBinding : List String := ["bag.SetCompileScript", "generic.(*FunctionKeywords).Call"]
+
+/-- **markers_case_insensitive_sites** — as long as one constructor of a documented lambda list
+    (DefLambda: defun, lambda, defmacro, flavors methods, whoppers; defGenericMethod / newGfAux /
+    defgeneric: CLOS methods) stores the parameter names as the user wrote them, no function of the
+    repository (root and pkg/**) outside `notBinding` compares the name of a documented argument with
+    a lambda-list marker exactly: all such comparisons fold case or look at the first byte only.
+    Lower-casing the markers in ONE constructor and comparing exactly in `Lambda.Call` (fine for
+    defun, wrong for CLOS methods) breaks this. -/
+theorem markers_case_insensitive_sites :
+    (!(LambdaSites.builders.any (fun b => decide (0 < b.written + b.other))) ||
+      LambdaSites.readers.all (fun r => notBinding.contains r.fn || r.exact == 0)) = true := by
+  decide +kernel
+
+/-- the site table is not vacuous: the constructors (at least DefLambda and the CLOS ones) and the
+    readers (Lambda.Call with its ≥ 20 folded comparisons, isKeyParam, requiredCount, NewAux …) are found -/
+theorem sites_not_vacuous :
+    3 ≤ LambdaSites.builders.length ∧ 5 ≤ (LambdaSites.readers.filter (fun r => r.exact == 0)).length ∧
+    20 ≤ (LambdaSites.readers.map (·.folds)).sum := by
+  decide +kernel
 
 /-! ### keyword arguments of built-ins (Gen/BuiltinKeys.lean) -/
 
